@@ -100,6 +100,7 @@ fn run(cx: &mut Cx, mode: Mode) {
     }
     cx.run();
     if mode == Mode::Complete && cx.ch.chance("concurrent_burst", 1, 8) { crate::scen_burst::proof_burst(cx, true); }
+    if mode == Mode::Complete { crate::scen_sweep::blind(cx); }
 }
 
 #[allow(clippy::too_many_arguments)]
